@@ -87,6 +87,10 @@ def triples (a : SpMat) : List (Nat × Nat × Rat) :=
 def aggEntry (a : SpMat) (lr lc : List Nat) (k x y : Nat) : Rat :=
   sumR (((triples a).filter fun t => lr.getD t.1 k == x && lc.getD t.2.1 k == y).map (·.2.2))
 
+/-- the same for integer labels, negative labels being ignored (`aggregate_graph`) -/
+def aggEntryInt (a : SpMat) (lr lc : List Int) (x y : Nat) : Rat :=
+  sumR (((triples a).filter fun t => lr.getD t.1 (-1) == (x : Int) && lc.getD t.2.1 (-1) == (y : Int)).map (·.2.2))
+
 /-- total weight of the input -/
 def totalWeight (a : SpMat) : Rat := sumR ((triples a).map (·.2.2))
 
